@@ -1,0 +1,82 @@
+//go:build verif
+
+package limit
+
+// Contracts for the deductive verifier in /verif (govc). Comment-only file: adds no code.
+
+// ---- the Lua scripts, over an abstract store: existsN/valN/ttlN of KEYS[1]=K1, KEYS[2]=K2 before (0) and after (1) ----
+
+// Period limiter: one INCRBY per take; the window's expiry is set by the first take only; the verdict compares the
+// new count with the quota: below => 1 (Allowed), equal => 2 (HitQuota), above => 0 (OverQuota).
+//@ lua periodScript
+//@   prop C08
+//@   requires ARGV1 >= 0.0
+//@   ensures [counts-this-take] exists1_K1 && val1_K1 == ite(exists0_K1, val0_K1, 0.0) + 1.0
+//@   ensures [window-starts-at-first-take] !exists0_K1 ==> ttl1_K1 == ARGV2
+//@   ensures [window-not-extended] exists0_K1 && val0_K1 != 0.0 ==> ttl1_K1 == ttl0_K1
+//@   ensures [verdict] result == ite(val1_K1 < ARGV1, 1.0, ite(val1_K1 == ARGV1, 2.0, 0.0))
+//@   ensures [other-key-untouched] exists1_K2 == exists0_K2 && val1_K2 == val0_K2 && ttl1_K2 == ttl0_K2
+
+// Token bucket (ARGV = rate, capacity, now, requested): refill by whole elapsed seconds up to the capacity, grant
+// iff enough tokens, always store the refill time.
+//@ lua script
+//@   prop C08
+//@   requires ARGV1 > 0.0 && ARGV2 >= 0.0 && ARGV4 >= 0.0
+//@   ensures [granted-iff-enough] result_true == (min(ARGV2, ite(exists0_K1, val0_K1, ARGV2) + max(0.0, ARGV3 - ite(exists0_K2, val0_K2, 0.0)) * ARGV1) >= ARGV4)
+//@   ensures [consumes-on-grant] result_true ==> val1_K1 == min(ARGV2, ite(exists0_K1, val0_K1, ARGV2) + max(0.0, ARGV3 - ite(exists0_K2, val0_K2, 0.0)) * ARGV1) - ARGV4
+//@   ensures [keeps-on-refusal] !result_true ==> val1_K1 == min(ARGV2, ite(exists0_K1, val0_K1, ARGV2) + max(0.0, ARGV3 - ite(exists0_K2, val0_K2, 0.0)) * ARGV1)
+//@   ensures [refill-time-always-stored] exists1_K2 && val1_K2 == ARGV3 && exists1_K1
+//@   ensures [never-above-capacity] val1_K1 <= ARGV2
+//@   ensures [potential-step] exists0_K1 && exists0_K2 && val0_K1 <= ARGV2 ==> val1_K1 + ite(result_true, ARGV4, 0.0) <= val0_K1 + max(0.0, ARGV3 - val0_K2) * ARGV1
+//@   ensures [ttl] ttl1_K1 == floor(ARGV2 / ARGV1 * 2.0) && ttl1_K2 == ttl1_K1
+
+// ---- the Go side ----
+// TakeCtx passes quota and window as ARGV[1..2], the prefixed key as KEYS[1], and maps 1/2/0 to Allowed/HitQuota/OverQuota.
+//@ func (*PeriodLimit).TakeCtx
+//@   prop C08
+//@   opaque EvalCtx, calcExpireSeconds
+//@   requires pl != nil
+//@   let keys = arg(EvalCtx, 3)
+//@   let argv = unbox(arg(EvalCtx, 4)[0], []string)
+//@   let resp = ret(EvalCtx, 0)
+//@   ensures [script] calls(pl.limitStore.EvalCtx) == 1 && arg(EvalCtx, 2) == periodScript && len(arg(EvalCtx, 4)) == 1
+//@   ensures [key] len(keys) == 1 && keys[0] == pl.keyPrefix + key
+//@   ensures [argv-quota] len(argv) == 2 && argv[0] == ret(strconv.Itoa, 0, 1) && arg(strconv.Itoa, 0, 1) == pl.quota
+//@   ensures [argv-window] argv[1] == ret(strconv.Itoa, 0, 2) && arg(strconv.Itoa, 0, 2) == ret(pl.calcExpireSeconds)
+//@   ensures [store-error] ret(EvalCtx, 1) != nil ==> result0 == 0 && result1 == ret(EvalCtx, 1)
+//@   ensures [mapping] ret(EvalCtx, 1) == nil && typeis(resp, int64) ==> (unbox(resp, int64) == 1 ==> result0 == 1 && result1 == nil) && (unbox(resp, int64) == 2 ==> result0 == 2 && result1 == nil) && (unbox(resp, int64) == 0 ==> result0 == 3 && result1 == nil)
+//@   ensures [unknown] ret(EvalCtx, 1) == nil && (!typeis(resp, int64) || unbox(resp, int64) < 0 || unbox(resp, int64) > 2) ==> result0 == 0 && result1 == ErrUnknownCode
+
+// calcExpireSeconds: the whole period, or (aligned mode) the rest of the current period: always in 1..period.
+//@ func (*PeriodLimit).calcExpireSeconds
+//@   prop C08
+//@   requires pl != nil && pl.period > 0
+//@   ensures [unaligned] !pl.align ==> result == pl.period
+//@   ensures [aligned-in-range] pl.align && ret(Unix) + ret(Zone, 1) >= 0 ==> 1 <= result && result <= pl.period
+//@   ensures [aligned-to-boundary] pl.align && ret(Unix) + ret(Zone, 1) >= 0 ==> (ret(Unix) + ret(Zone, 1) + result) % pl.period == 0
+
+// reserveN: Redis alive => the script decides (granted iff it answers 1), called with rate, burst, now, n in this order;
+// redis.Nil and context errors refuse; any other failure switches to the in-process bucket and starts the monitor.
+//@ func (*TokenLimiter).reserveN
+//@   prop C08
+//@   opaque EvalCtx, startMonitor, Errorf, AllowN
+//@   requires tl != nil
+//@   let argv = unbox(arg(EvalCtx, 4)[0], []string)
+//@   let keys = arg(EvalCtx, 3)
+//@   let resp = ret(EvalCtx, 0)
+//@   let rerr = ret(EvalCtx, 1)
+//@   ensures [rescue-while-down] old(tl.redisAlive) == 0 ==> calls(EvalCtx) == 0 && calls(tl.rescueLimiter.AllowN, now, n) == 1 && result == ret(AllowN)
+//@   ensures [script] old(tl.redisAlive) != 0 ==> calls(tl.store.EvalCtx) == 1 && arg(EvalCtx, 2) == script && len(arg(EvalCtx, 4)) == 1
+//@   ensures [keys] old(tl.redisAlive) != 0 ==> len(keys) == 2 && keys[0] == tl.tokenKey && keys[1] == tl.timestampKey && len(argv) == 4
+//@   ensures [argv-rate-burst] old(tl.redisAlive) != 0 ==> arg(strconv.Itoa, 0, 1) == tl.rate && argv[0] == ret(strconv.Itoa, 0, 1) && arg(strconv.Itoa, 0, 2) == tl.burst && argv[1] == ret(strconv.Itoa, 0, 2)
+//@   ensures [argv-now-n] old(tl.redisAlive) != 0 ==> argv[2] == ret(strconv.FormatInt) && arg(strconv.FormatInt, 0) == ret(Unix) && arg(strconv.Itoa, 0, 3) == n && argv[3] == ret(strconv.Itoa, 0, 3)
+//@   ensures [granted-iff-script-says-1] calls(EvalCtx) == 1 && rerr == nil && typeis(resp, int64) ==> result == (unbox(resp, int64) == 1) && calls(startMonitor) == 0 && calls(AllowN) == 0
+//@   ensures [nil-refuses] calls(EvalCtx) == 1 && rerr == redis.Nil ==> !result && calls(startMonitor) == 0 && calls(AllowN) == 0
+//@   ensures [failure-falls-back] calls(EvalCtx) == 1 && rerr != nil && rerr != redis.Nil && !ret(errors.Is, 0, 1) && !ret(errors.Is, 0, 2) ==> calls(tl.startMonitor) == 1 && calls(tl.rescueLimiter.AllowN, now, n) == 1 && result == ret(AllowN)
+
+// startMonitor: at most one monitor; the switch to the rescue bucket and the start happen under the lock.
+//@ func (*TokenLimiter).startMonitor
+//@   prop C08
+//@   requires tl != nil
+//@   ensures [one-monitor] old(tl.monitorStarted) ==> calls("go (*TokenLimiter).waitForRedis") == 0 && tl.redisAlive == old(tl.redisAlive)
+//@   ensures [starts] !old(tl.monitorStarted) ==> calls("go (*TokenLimiter).waitForRedis") == 1 && tl.monitorStarted && tl.redisAlive == 0
